@@ -1,5 +1,180 @@
+import PsiModel.PData
 import Drivers.Common
-/-! Stub: replaced by the driver of the `PData` model. -/
+/-!
+Line protocol of the `pdata` model (C11).  Registers hold annotated arrays.
+
+  new K BASE SHAPE S0 NUM/DEN CHAN META   register K := fresh array, data = BASE, BASE+1, …
+  get K J INDEX                           register J := K[INDEX]   (repaired `__getitem__`)
+  geto K J INDEX                          same with the code as found (used for the notes)
+  fin K J                                 register J := result of arithmetic / copy / astype on K
+  set K s0|fs|ch|md VALUE                 attribute assignment;  adds0 K D: s0 += D
+  concat J time|channel|epoch K1,K2,…     register J := concat([K1, K2, …], axis)
+  show K
+
+CHAN = `s:LABEL` | `l:LABEL,LABEL,…` (`~` is None, `l:-` the empty list); META = `s:ID` | `l:ID,…`.
+INDEX = `one:ITEM` | `tup:ITEM;ITEM;…`; ITEM = `i<int>` | `s<start>:<stop>:<step>` (`_` = None) |
+`L<ints>` list | `B<bits>` list of bools | `A<ints>` int ndarray | `M<bits>` bool ndarray | `n` | `e`.
+-/
 namespace Psi.Driver.PData
-def main : IO Unit := pure ()
+open Psi.Driver Psi.PData
+
+def showErr : Err → String
+  | .indexError => "IndexError"
+  | .valueError => "ValueError"
+  | .typeError => "TypeError"
+  | .keyError => "KeyError"
+  | .notImplemented => "NotImplementedError"
+  | .unboundLocal => "UnboundLocalError"
+
+def showLabel : Label → String
+  | none => "~"
+  | some s => s
+
+def parseLabel (s : String) : Label := if s == "~" then none else some s
+
+def showChan : Chan → String
+  | .one l => s!"s:{showLabel l}"
+  | .many l => s!"l:{showList (l.map showLabel)}"
+
+def showMeta : Meta → String
+  | .one m => s!"s:{m}"
+  | .many l => s!"l:{showList l}"
+
+def showRat (r : Rat) : String := s!"{r.num}/{r.den}"
+
+def showPDHead (a : PD) : String :=
+  let nep := match a.nEpochs with | none => "-" | some k => toString k
+  s!"arr shape={showList a.shape} s0={a.s0} fs={showRat a.fs} ch={showChan a.channel} md={showMeta a.metadata} nch={a.nChannels} nep={nep} t={showList (a.t.map showRat)}"
+
+def showPD (a : PD) : String := s!"{showPDHead a} data={showList a.data}"
+
+def parseChan? (s : String) : Option Chan :=
+  if s.startsWith "s:" then some (.one (parseLabel (s.drop 2).toString))
+  else if s.startsWith "l:" then some (.many ((commaList (s.drop 2).toString).map parseLabel))
+  else none
+
+def parseMeta? (s : String) : Option Meta :=
+  if s.startsWith "s:" then (parseNat? (s.drop 2).toString).map .one
+  else if s.startsWith "l:" then (parseNats? (s.drop 2).toString).map .many
+  else none
+
+def parseRat? (s : String) : Option Rat :=
+  match s.splitOn "/" with
+  | [a, b] => do
+    let n ← parseInt? a
+    let d ← parseNat? b
+    if d = 0 then none else pure ((n : Rat) / (d : Rat))
+  | _ => none
+
+def parseOptInt? (s : String) : Option (Option Int) :=
+  if s == "_" then some none else (parseInt? s).map some
+
+def parseItem? (s : String) : Option Item :=
+  let body := (s.drop 1).toString
+  match s.front with
+  | 'i' => (parseInt? body).map .int
+  | 's' =>
+    match body.splitOn ":" with
+    | [a, b, c] => do
+      let a ← parseOptInt? a
+      let b ← parseOptInt? b
+      let c ← parseOptInt? c
+      pure (.slice ⟨a, b, c⟩)
+    | _ => none
+  | 'L' => (parseInts? body).map .ilist
+  | 'A' => (parseInts? body).map .iarr
+  | 'B' => (parseBits? (if body == "" then "-" else body)).map .blist
+  | 'M' => (parseBits? (if body == "" then "-" else body)).map .barr
+  | 'n' => if body == "" then some .newaxis else none
+  | 'e' => if body == "" then some .ellipsis else none
+  | _ => none
+
+def parseIndex? (s : String) : Option Index :=
+  if s.startsWith "one:" then (parseItem? (s.drop 4).toString).map .one
+  else if s.startsWith "tup:" then
+    let body := (s.drop 4).toString
+    if body == "" then some (.tuple []) else ((body.splitOn ";").mapM parseItem?).map .tuple
+  else none
+
+def parseDim? : String → Option Dim
+  | "time" => some .time
+  | "channel" => some .channel
+  | "epoch" => some .epoch
+  | _ => none
+
+abbrev Regs := List (Nat × PD)
+
+def Regs.get? (r : Regs) (k : Nat) : Option PD := (r.find? (·.1 == k)).map (·.2)
+def Regs.put (r : Regs) (k : Nat) (a : PD) : Regs := (k, a) :: r.filter (·.1 != k)
+
+def doGet (fx : Fixes) (r : Regs) (k j idx : String) : Regs × String :=
+  match parseNat? k, parseNat? j, parseIndex? idx with
+  | some k, some j, some idx =>
+    (match r.get? k with
+     | none => (r, "err no-register")
+     | some a =>
+       match getitemG fx a idx with
+       | .error e => (r, s!"err {showErr e}")
+       | .ok (.scalar v) => (r, s!"scalar {v}")
+       | .ok (.arr b) => (r.put j b, showPD b))
+  | _, _, _ => (r, "bad-op")
+
+def step (r : Regs) (ws : List String) : Regs × String :=
+  match ws with
+  | ["new", k, base, shape, s0, fs, ch, md] =>
+    (match parseNat? k, parseNat? base, parseNats? shape, parseInt? s0, parseRat? fs, parseChan? ch, parseMeta? md with
+     | some k, some base, some shape, some s0, some fs, some ch, some md =>
+       let a : PD := ⟨shape, (List.range (prod shape)).map (base + ·), s0, fs, ch, md⟩
+       (r.put k a, showPD a)
+     | _, _, _, _, _, _, _ => (r, "bad-op"))
+  | ["get", k, j, idx] => doGet Fixes.all r k j idx
+  | ["geto", k, j, idx] => doGet Fixes.none r k j idx
+  | ["fin", k, j] =>
+    (match parseNat? k, parseNat? j with
+     | some k, some j =>
+       (match r.get? k with
+        | none => (r, "err no-register")
+        | some a => let b := finalize a a.shape a.data; (r.put j b, s!"{showPDHead b} data=*"))
+     | _, _ => (r, "bad-op"))
+  | ["set", k, field, v] =>
+    (match parseNat? k with
+     | none => (r, "bad-op")
+     | some k =>
+       match r.get? k with
+       | none => (r, "err no-register")
+       | some a =>
+         let b : Option PD :=
+           match field with
+           | "s0" => (parseInt? v).map fun x => { a with s0 := x }
+           | "fs" => (parseRat? v).map fun x => { a with fs := x }
+           | "ch" => (parseChan? v).map fun x => { a with channel := x }
+           | "md" => (parseMeta? v).map fun x => { a with metadata := x }
+           | _ => none
+         match b with
+         | none => (r, "bad-op")
+         | some b => (r.put k b, showPD b))
+  | ["adds0", k, d] =>
+    (match parseNat? k, parseInt? d with
+     | some k, some d =>
+       (match r.get? k with
+        | none => (r, "err no-register")
+        | some a => let b := { a with s0 := a.s0 + d }; (r.put k b, showPD b))
+     | _, _ => (r, "bad-op"))
+  | ["concat", j, dim, ks] =>
+    (match parseNat? j, parseDim? dim, parseNats? ks with
+     | some j, some dim, some ks =>
+       (match ks.mapM r.get? with
+        | none => (r, "err no-register")
+        | some arrs =>
+          match concat arrs dim with
+          | .error e => (r, s!"err {showErr e}")
+          | .ok b => (r.put j b, showPD b))
+     | _, _, _ => (r, "bad-op"))
+  | ["show", k] =>
+    (match parseNat? k with
+     | some k => (match r.get? k with | none => (r, "err no-register") | some a => (r, showPD a))
+     | none => (r, "bad-op"))
+  | _ => (r, "bad-op")
+
+def main : IO Unit := run ([] : Regs) step
 end Psi.Driver.PData
